@@ -250,6 +250,16 @@ def _entry_spec_json(entries, name, binding):
 
 
 # ----------------------------------------------------------------------------------------------- replay
+def replay_explore(ctx):
+    """exploration used by replays: complete graph for small scenarios, around the reference plan for large ones
+    (a complete exploration of a 36- or 171-host scenario does not terminate in practice)"""
+    big = ctx.spec.get("_path_only") or ctx.layout.nhosts > 8
+    if not big:
+        return explore(ctx, [])
+    from .explore import plan_path_keys
+    return explore(ctx, [], expand_only=plan_path_keys(ctx, cap=ctx.spec.get("_path_cap") or 10))
+
+
 def replay_sweep_record(rec):
     """Re-establish one sweep violation on a fresh environment.
 
